@@ -217,6 +217,17 @@ pub fn pick_id_scheme(rng: &mut Rng) -> (i32, i32) {
     ])
 }
 
+/// Progress counter of the current worker thread: the simulator bumps it on every scheduler step, so
+/// the watchdog can tell a slow but progressing run (heavily loaded machine, long pathological
+/// session) from a single poll that never returns.
+pub static HEARTBEAT: [std::sync::atomic::AtomicU64; 256] = [const { std::sync::atomic::AtomicU64::new(0) }; 256];
+thread_local! {
+    pub static WORKER: std::cell::Cell<usize> = const { std::cell::Cell::new(255) };
+}
+pub fn heartbeat() {
+    WORKER.with(|w| HEARTBEAT[w.get()].fetch_add(1, std::sync::atomic::Ordering::Relaxed));
+}
+
 pub fn fresh_uri(i: usize) -> String {
     format!("file:///w/doc{i}.spl")
 }
